@@ -1,7 +1,7 @@
 """C06 -- notices, list markers, hyphenation, spelling variants are ignored.  M: NoticeIns / Marker on the tokenizer spec; MarkerParen and HyphenSplit are EXPECTED to be violated (open findings, replayed as probes).  G: replay of alphabets C, D.  T: TraceV2 Pair with inserted notices."""
 import time
 from lib import vlib
-from checks.v2common import Acc, trace_leg, tok_model, tok_replay
+from checks.v2common import tables_leg, Acc, trace_leg, tok_model, tok_replay
 PID = "C06"
 def run():
     t0 = time.time(); v = vlib.Verdict(PID); acc = Acc(); th = vlib.TIER == "thorough"
@@ -10,6 +10,7 @@ def run():
     tok_model(acc, ["A"], 3, invariants=["MarkerParen"], expect_violation="MarkerParen")
     tok_model(acc, ["A"], 5, invariants=["HyphenSplit"], expect_violation="HyphenSplit")
     tok_replay(v, acc, ["C", "D"], 4 if th else 3)
+    tables_leg(v, acc)                                    # list markers, interchangeable spellings, rewritten runes: the tables entry by entry
     recs, lines = trace_leg(v, acc, "c06", [PID])
     ps = [r for r in lines if r.get("ev") == "pair"]
     acc.nontrivial += len({(r["label"], r["kind"]) for r in ps})
